@@ -2,6 +2,6 @@ SPECIFICATION Spec
 CONSTANTS
  Mode = "lex"
  MaxKw = 2
- ProductN = 3
+ ProductN = 2
 INVARIANT Checked
 CHECK_DEADLOCK FALSE
